@@ -15,13 +15,15 @@
 (* plaintext, for every kind of item.  Mut # "none" breaks one step of the reader (Algorithm 7 with   *)
 (* the 20 RC4 passes in forward order; Algorithm 12 without the U string) and must be refuted.        *)
 (*                                                                                                *)
-(* IMPL-SHAPED layer (what lopdf does, src/encryption.rs, src/encryption/algorithms.rs):             *)
-(*  - EncryptionVersion always passes Some(owner password) to Algorithm 3 (Dev_ownerAbsent),          *)
-(*  - decrypt_raw derives the file key of revisions 2-4 from the supplied password itself, also when   *)
+(* IMPL-SHAPED layer (what lopdf does, src/encryption.rs, src/encryption/algorithms.rs).  The three   *)
+(* switches re-create deviations that were confirmed and then repaired (fix: c09ccb6, 44ea712,        *)
+(* 48a6296); FALSE = the code as it is, TRUE (cfg *_seeded) = the old defect:                          *)
+(*  - EncryptionVersion always passed Some(owner password) to Algorithm 3 (Dev_ownerAbsent),          *)
+(*  - decrypt_raw derived the file key of revisions 2-4 from the supplied password itself, also when   *)
 (*    it authenticated as the owner password (Dev_h12),                                              *)
-(*  - encrypt_object / decrypt_object do not descend into stream dictionaries (Dev_h13).              *)
+(*  - encrypt_object / decrypt_object did not descend into stream dictionaries (Dev_h13).             *)
 (* ImplRefines: lopdf-shaped writer + ISO reader and ISO writer + lopdf-shaped reader agree with the  *)
-(* declarative layer EXCEPT exactly in the cases named by the three switches.                        *)
+(* declarative layer EXCEPT exactly in the cases named by the switches that are on.                  *)
 (*                                                                                                *)
 (* Anti-vacuity: TLC's -coverage needs > 8 GB of heap on this module (it keeps cost counters for every     *)
 (* evaluation of the recursive term constructors), so the check derives "every action fired" from the     *)
